@@ -285,7 +285,7 @@ def c02(r):
     r.assumptions += ['user functions in generated programs declare return type undefined or the type they really return (the manual makes declarations advisory)',
                       'a tuple declaration with opaque items is matched item-wise',
                       'in-place methods on variables are evaluated once (not side-effect free)']
-    l = 2
+    l = 2 if r.quick else 3
     scs = r.gen('Gen_C02', 'Gen_C02.cfg', env={'GEN_DEPTH': str(l)}, timeout=3000)
     r.exhaustive = True
     r.extra['bounds'] = 'expression matrix: 43 operand kinds^2 x 24 binary operators, 5 unary, 40+17+6 built-ins, 6 members, tuple access/mutation; batch vs stepwise over all sequences of <= %d statements from a type-changing pool of 31' % l
